@@ -176,6 +176,13 @@ def factory(t):
 w1 = factory(1)
 w2 = factory(30)
 ''', ['w1', 'w2']),
+    _mk('partial_modifiers', '''
+def inner({inner}): return 'inner'
+@modifiers.kwoargs('c')
+def w0(a, b=2, c=3, **kwargs): return inner(1, a, **kwargs)
+w1 = functools.partial(w0, 1, c=5, colour='red')
+w2 = functools.partial(w0, b=4)
+''', ['w1', 'w2', 'w0'], outer='a, '),
     _mk('as_forged_class', '''
 class K(object):
     __signature__ = specifiers.as_forged
@@ -199,7 +206,7 @@ def instances(inners=None, outers=None):
     out = []
     for t in TEMPLATES:
         for inner in (inners or INNERS):
-            fixed_outer = t['name'].startswith('modifiers')
+            fixed_outer = t['name'].startswith('modifiers') or t['name'] == 'partial_modifiers'
             for outer in ([t['outer']] if fixed_outer else (outers or OUTERS)):
                 out.append((t['name'], inner, outer))
     return out
